@@ -48,7 +48,7 @@ pub fn lzip_wrap(alone: &[u8], dict_byte: u8, data: &[u8]) -> Vec<u8> {
     v.extend_from_slice(&alone[13..]);
     v.extend_from_slice(&crc32(data).to_le_bytes());
     v.extend_from_slice(&(data.len() as u64).to_le_bytes());
-    let msize = (v.len() + 16) as u64;
+    let msize = (v.len() + 8) as u64;
     v.extend_from_slice(&msize.to_le_bytes());
     v
 }
@@ -104,8 +104,8 @@ pub fn gen(rng: &mut Rng, tier: &str, dist: &mut Dist) -> Vec<String> {
                     }
                 };
                 let skip = has_bcj(&pre_used) as u8;
-                cmds.push(format!("xz_read {} {} {} {} valid:{}", rng.below(2), skip, hex(&f), ints(&sizes), hex(&data)));
-                cmds.push(format!("xz_spec 1 {} {}", skip, hex(&f)));
+                cmds.push(format!("xz_read {} {} {} {} {} valid:{}", rng.below(2), skip, hex(&f), ints(&sizes), cap_for(data.len()), hex(&data)));
+                push_spec(&mut cmds, false, skip, &f, data.len(), dist);
                 // (3) damaged
                 if skip == 0 && rng.chance(1, 2) {
                     let v = if rng.chance(1, 2) { damage(rng, &f, dist) } else {
@@ -114,7 +114,7 @@ pub fn gen(rng: &mut Rng, tier: &str, dist: &mut Dist) -> Vec<String> {
                         v[k] ^= 1 << rng.below(8);
                         v
                     };
-                    cmds.push(format!("xz_spec 1 0 {}", hex(&v)));
+                    push_spec(&mut cmds, false, 0, &v, data.len(), dist);
                 }
             }
             2 | 3 => {
@@ -123,7 +123,8 @@ pub fn gen(rng: &mut Rng, tier: &str, dist: &mut Dist) -> Vec<String> {
                 let f = match g.write() { Outcome::Ok(f) => f, _ => { cmds.push(g.write_cmd(None)); continue } };
                 let skip = has_bcj(&g.filters) as u8;
                 cmds.push(g.write_cmd(Some(&f)));
-                cmds.push(format!("xz_spec 1 {} {}", skip, hex(&f)));
+                let dlen = g.data().len();
+                push_spec(&mut cmds, false, skip, &f, dlen, dist);
                 if skip == 0 {
                     // (3) damaged, structured with CRC fix-up so that the damage reaches deep checks
                     let v = match rng.below(3) {
@@ -131,14 +132,14 @@ pub fn gen(rng: &mut Rng, tier: &str, dist: &mut Dist) -> Vec<String> {
                         1 => xz_field_edit(rng, &f, g.check, !g.filters.is_empty(), true, dist),
                         _ => xz_field_edit(rng, &f, g.check, !g.filters.is_empty(), false, dist),
                     };
-                    cmds.push(format!("xz_spec 1 0 {}", hex(&v)));
+                    push_spec(&mut cmds, false, 0, &v, dlen, dist);
                     // concatenation with padding
                     if rng.chance(1, 4) {
                         let mut two = f.clone();
                         two.extend(std::iter::repeat(0u8).take(*rng.pick(&[0usize, 4, 8, 1, 2, 3, 5])));
                         two.extend_from_slice(&f);
                         two.extend(std::iter::repeat(0u8).take(*rng.pick(&[0usize, 0, 4, 3])));
-                        cmds.push(format!("xz_spec 1 0 {}", hex(&two)));
+                        push_spec(&mut cmds, false, 0, &two, 2 * dlen, dist);
                     }
                 }
             }
@@ -148,10 +149,11 @@ pub fn gen(rng: &mut Rng, tier: &str, dist: &mut Dist) -> Vec<String> {
                     let g = gen_lzip(rng, i, max_len, dist);
                     let f = match g.write() { Outcome::Ok(f) => f, _ => { cmds.push(g.write_cmd(None)); continue } };
                     cmds.push(g.write_cmd(Some(&f)));
-                    cmds.push(format!("lzip_spec {}", hex(&f)));
+                    let dlen = g.data().len();
+                    push_spec(&mut cmds, true, 0, &f, dlen, dist);
                     let v = if rng.chance(1, 2) { damage(rng, &f, dist) } else { lzip_field_edit(rng, &f, dist) };
                     if !ends_with_magic_prefix(&v) {
-                        cmds.push(format!("lzip_spec {}", hex(&v)));
+                        push_spec(&mut cmds, true, 0, &v, dlen, dist);
                     }
                 } else {
                     // reference-made payload in a member frame (1..3 members)
@@ -178,17 +180,39 @@ pub fn gen(rng: &mut Rng, tier: &str, dist: &mut Dist) -> Vec<String> {
                         continue;
                     }
                     dist.bump(&format!("ref.lzip_members.{k}"));
-                    cmds.push(format!("lzip_read {} {} valid:{}", hex(&file), ints(&sizes), hex(&all)));
-                    cmds.push(format!("lzip_spec {}", hex(&file)));
+                    cmds.push(format!("lzip_read {} {} {} valid:{}", hex(&file), ints(&sizes), cap_for(all.len()), hex(&all)));
+                    push_spec(&mut cmds, true, 0, &file, all.len(), dist);
                     let v = if rng.chance(1, 2) { damage(rng, &file, dist) } else { lzip_field_edit(rng, &file, dist) };
                     if !ends_with_magic_prefix(&v) {
-                        cmds.push(format!("lzip_spec {}", hex(&v)));
+                        push_spec(&mut cmds, true, 0, &v, all.len(), dist);
                     }
                 }
             }
         }
     }
     cmds
+}
+
+/// The specification-vs-liblzma comparison of one file.  Damaged size fields can make a file
+/// decode to megabytes, which the extracted model cannot afford: files for which liblzma produces
+/// more than the output budget (before accepting or rejecting) are left out.
+fn push_spec(cmds: &mut Vec<String>, lzip: bool, skip: u8, file: &[u8], content_len: usize, dist: &mut Dist) {
+    let cap = cap_for(content_len);
+    if reflib::decoded_len(lzip, file) > cap {
+        dist.bump("spec.skipped_inflating_file");
+        return;
+    }
+    if lzip {
+        // liblzma also decodes version-0 members (no member size in the trailer); the crate and the
+        // specification support version 1 only
+        if file.windows(5).any(|w| w == b"LZIP\x00") {
+            dist.bump("spec.skipped_lzip_version0");
+            return;
+        }
+        cmds.push(format!("lzip_spec {} {}", hex(file), cap));
+    } else {
+        cmds.push(format!("xz_spec 1 {} {} {}", skip, hex(file), cap));
+    }
 }
 
 /// liblzma silently drops up to three trailing bytes that are a proper prefix of "LZIP"; lzip(1)
